@@ -3,7 +3,7 @@
     status filter, override URIs, the repaired handle_vary_missing / clear_page); [fix_* = true] is the code in the
     repo worktree, the [_refuted] theorems are witnesses on the model of the code before each repair. *)
 From KV Require Import Bytes RustInt Range CacheControl Cache CacheProofs Cache04Proofs Fixture CacheX CacheXProofs
-     CacheControlProofs CacheXWitness.
+     CacheControlProofs CacheXWitness Hosts CacheClear CacheClearProofs.
 Open Scope N_scope.
 
 (** ---------------- admission ---------------- *)
@@ -250,6 +250,164 @@ Theorem lifetime_kvarn_unit : forall n u m hs,
   forall st body sp cmp, lifetime_ms (mkFat st hs body sp cmp) = Some (n * m * 1000).
 Proof. exact kvarn_unit_lifetime. Qed.
 
+(** ---------------- the clears as their caller names the host ---------------- *)
+(** [Collection::clear_page(name, uri)] and [Collection::clear_response_caches(filter)] over the collection the fixture builds
+    (Model/CacheClear.v: one host [own], added with [.default] iff [dflt]; builder and lookups are those of Model/Hosts.v, C15).
+    The collection is what the builder model returns … *)
+Theorem fixture_collection_is_built : forall own dflt, build (fixture_ops own dflt) = Ok (fixture_collection own dflt).
+Proof. exact fixture_collection_built. Qed.
+(** … [clear_page]'s lookup reaches the host exactly when the designation is "" / "default" and the host is the default
+    host, or the designation is any other text and equals the host's name … *)
+Theorem clear_page_designation_exact : forall own dflt name,
+  clear_target V1 (fixture_collection own dflt) name =
+  Ok (if spec_designates own dflt name then Some (fixture_host own) else None).
+Proof.
+  intros own dflt name. rewrite fixture_clear_target. unfold spec_designates, is_default_name. rewrite s_default_text.
+  destruct (beq name [] || beq name (B "default")); [destruct dflt | destruct (beq name own)]; reflexivity.
+Qed.
+(** … and [clear_response_caches] reaches it exactly when there is no filter or the filter is its name *)
+Theorem clear_all_filter_exact : forall own dflt flt,
+  clear_all_targets (fixture_collection own dflt) flt = if spec_filter_reaches own flt then [fixture_host own] else [].
+Proof. exact fixture_clear_all_targets. Qed.
+
+Section C04Clear.
+  Variable hstate : Type.
+  Variable compute : hstate -> request -> option (bytes * option bytes) -> bool -> fatx * hstate * list bytes.
+  Variable ims_on : bool.
+  Variable fix_ovkey fix_clear fix_svary : bool.
+  Variable sfilter : N -> bool.
+  Variable parse_ims : bytes -> option Z.
+  Variable sanitize_ok : request -> bool.
+  Variable prime : request -> request.
+  Variable override : request -> option (bytes * option bytes).
+  Variable negotiate : request -> fatx -> option (N * bytes).
+  Variable vary_tuple : request -> option (bytes * option bytes) -> tuple.
+  Variable vary_header : request -> option (bytes * option bytes) -> fatx -> list (bytes * bytes).
+  Variable clear_alias : request -> option request.
+  Variable own : bytes.
+  Variable dflt : bool.
+  Notation stepR := (stepX hstate compute true ims_on true fix_ovkey fix_clear fix_svary true true sfilter parse_ims
+                           sanitize_ok prime override negotiate vary_tuple vary_header clear_alias).
+  Notation serveR := (serveX hstate compute true ims_on true fix_ovkey fix_svary true true sfilter parse_ims sanitize_ok prime override
+                             negotiate vary_tuple vary_header).
+  Notation stepDR := (stepD hstate stepR true (fixture_collection own dflt)).
+
+  (** "not at all after an explicit clear of that page": a clear_page whose designation reaches the host — its own name, or
+      "" / "default" when it is the default host — reports (found, cleared-if-anything-was-there), removes the page (as given
+      and as the default redirect rewrites it), and the next request for the page is recomputed, in EVERY state *)
+  Theorem cleared_page_by_designation_is_recomputed : forall c hs now name r0 r',
+    spec_designates own dflt name = true ->
+    override r0 = None ->
+    (path_query (prime r0) = path_query r' \/
+     exists a, fix_clear = true /\ clear_alias r' = Some a /\ path_query (prime r0) = path_query a) ->
+    stepDR (c, hs) now (DClearPage name r') =
+      ((xclear_page fix_clear clear_alias r' c, hs), now, XbCleared true (xcleared fix_clear clear_alias r' c)) /\
+    snd (serveR (xclear_page fix_clear clear_alias r' c, hs) now r0) = snd (compute hs (prime r0) None (sanitize_ok r0)).
+  Proof.
+    exact (clear_page_designated_recomputes hstate compute ims_on fix_ovkey fix_clear fix_svary sfilter parse_ims sanitize_ok prime
+             override negotiate vary_tuple vary_header clear_alias own dflt).
+  Qed.
+  (** the second component of the answer is true whenever one of the page's two keys was occupied *)
+  Theorem clear_reports_what_it_cleared : forall r' c,
+    (xc_find (key_pq r') c <> None \/ xc_find (key_p r') c <> None) -> xcleared fix_clear clear_alias r' c = true.
+  Proof. exact (clear_reports_cleared fix_clear clear_alias). Qed.
+  (** "… or host": clear_response_caches without a filter or with the host's name empties its cache; every lookup then
+      misses and the next request — any request — is recomputed *)
+  Theorem cleared_host_by_filter_is_recomputed : forall c hs now flt r0,
+    spec_filter_reaches own flt = true ->
+    stepDR (c, hs) now (DClearAll flt) = (([], hs), now, XbNone) /\
+    (forall lr, snd (fst (xlookup lr [] now)) = None) /\
+    snd (serveR ([], hs) now r0) = snd (compute hs (prime r0) (override r0) (sanitize_ok r0)) /\
+    snd (fst (fst (serveR ([], hs) now r0))) = snd (fst (compute hs (prime r0) (override r0) (sanitize_ok r0))).
+  Proof.
+    exact (clear_all_filter_recomputes hstate compute ims_on fix_ovkey fix_clear fix_svary sfilter parse_ims sanitize_ok prime
+             override negotiate vary_tuple vary_header clear_alias own dflt).
+  Qed.
+  (** conversely a clear that names another host (an unknown name; "" / "default" when the host is not the default host;
+      a filter that is not the host's name) changes nothing at all and reports (not found, not cleared) *)
+  Theorem clear_by_other_name_is_noop : forall st now name r',
+    spec_designates own dflt name = false -> stepDR st now (DClearPage name r') = (st, now, XbCleared false false).
+  Proof.
+    exact (clear_page_other_name_noop hstate compute ims_on fix_ovkey fix_clear fix_svary sfilter parse_ims sanitize_ok prime
+             override negotiate vary_tuple vary_header clear_alias own dflt).
+  Qed.
+  Theorem clear_all_by_other_filter_is_noop : forall st now flt,
+    spec_filter_reaches own flt = false -> stepDR st now (DClearAll flt) = (st, now, XbNone).
+  Proof.
+    exact (clear_all_other_filter_noop hstate compute ims_on fix_ovkey fix_clear fix_svary sfilter parse_ims sanitize_ok prime
+             override negotiate vary_tuple vary_header clear_alias own dflt).
+  Qed.
+End C04Clear.
+
+(** every designated history leaves the cache, the handler state and the clock that the plain history leaves in which each
+    clear is replaced by what it amounts to ([erase]: the plain clear when it reaches the host, nothing otherwise) — so every
+    theorem above about ALL plain histories ([stored_variants_admitted], [never_served_past_own_lifetime],
+    [uncacheable_always_recomputed], …) holds for all designated histories *)
+Theorem designated_history_erases :
+  forall (hstate : Type) (compute : hstate -> request -> option (bytes * option bytes) -> bool -> fatx * hstate * list bytes)
+         (cache_on ims_on fix_vary fix_ovkey fix_clear fix_svary fix_qmkey fix_ims : bool) (sfilter : N -> bool)
+         (parse_ims : bytes -> option Z) (sanitize_ok : request -> bool)
+         (prime : request -> request) (override : request -> option (bytes * option bytes))
+         (negotiate : request -> fatx -> option (N * bytes)) (vary_tuple : request -> option (bytes * option bytes) -> tuple)
+         (vary_header : request -> option (bytes * option bytes) -> fatx -> list (bytes * bytes)) (clear_alias : request -> option request)
+         (col : collection) (ops : list opd) (st : statex hstate) (now : N),
+  runD_state hstate (stepX hstate compute cache_on ims_on fix_vary fix_ovkey fix_clear fix_svary fix_qmkey fix_ims sfilter parse_ims
+                           sanitize_ok prime override negotiate vary_tuple vary_header clear_alias) cache_on col st now ops =
+  runX_state hstate compute cache_on ims_on fix_vary fix_ovkey fix_clear fix_svary fix_qmkey fix_ims sfilter parse_ims
+             sanitize_ok prime override negotiate vary_tuple vary_header clear_alias st now (map (erase cache_on col) ops).
+Proof.
+  intros hstate compute cache_on ims_on fix_vary fix_ovkey fix_clear fix_svary fix_qmkey fix_ims sfilter parse_ims sanitize_ok prime
+         override negotiate vary_tuple vary_header clear_alias col ops st now.
+  exact (designated_history_erases_x hstate compute cache_on ims_on fix_vary fix_ovkey fix_clear fix_svary fix_qmkey fix_ims sfilter
+           parse_ims sanitize_ok prime override negotiate vary_tuple vary_header clear_alias col ops st now).
+Qed.
+
+(** [computed_once_history] over designated histories: requests, waits, clears of other pages of the host, and ANY clear —
+    of this very page too — that names another host or carries another host's name as filter *)
+Theorem computed_once_designated_history :
+  forall (hstate : Type) (compute : hstate -> request -> option (bytes * option bytes) -> bool -> fatx * hstate * list bytes)
+         (ims_on fix_clear fix_svary : bool) (sfilter : N -> bool) (parse_ims : bytes -> option Z) (sanitize_ok : request -> bool)
+         (prime : request -> request) (override : request -> option (bytes * option bytes))
+         (negotiate : request -> fatx -> option (N * bytes)) (vary_tuple : request -> option (bytes * option bytes) -> tuple)
+         (vary_header : request -> option (bytes * option bytes) -> fatx -> list (bytes * bytes)) (clear_alias : request -> option request)
+         (own : bytes) (dflt : bool) (r0 : request) (x : fatx) (now0 D : N),
+  (forall hs r' ov', may_store_x true sfilter (rq_method r') (fst (fst (compute hs r' ov' false))) = false) ->
+  (forall hs r' ov' ok, rq_path (lookup_req r' ov') = rq_path (lookup_req (prime r0) (override r0)) ->
+     qmx (fst (fst (compute hs r' ov' ok))) = qmx x /\
+     match lifetime_x (fst (fst (compute hs r' ov' ok))) with Some L => D <= now0 + L | None => True end) ->
+  forall c hs hs1 lg1 ops,
+  sanitize_ok r0 = true -> get_or_head (rq_method (prime r0)) = true ->
+  (ims_on = false \/ header (B "if-modified-since") (prime r0) = None) ->
+  snd (fst (xlookup (lookup_req (prime r0) (override r0)) c now0)) = None ->
+  compute hs (prime r0) (override r0) true = (x, hs1, lg1) -> may_store_x true sfilter (rq_method (prime r0)) x = true ->
+  Forall (benignD fix_clear prime override clear_alias own dflt r0 x) ops ->
+  let serveR := serveX hstate compute true ims_on true true fix_svary true true sfilter parse_ims sanitize_ok prime override
+                       negotiate vary_tuple vary_header in
+  let stepR := stepX hstate compute true ims_on true true fix_clear fix_svary true true sfilter parse_ims sanitize_ok prime override
+                     negotiate vary_tuple vary_header clear_alias in
+  let st1 := fst (fst (serveR (c, hs) now0 r0)) in
+  let run := runD_state hstate stepR true (fixture_collection own dflt) st1 now0 ops in
+  snd run <= D ->
+  snd (serveR (fst run) (snd run) r0) = [] /\ snd (fst (fst (serveR (fst run) (snd run) r0))) = snd (fst run) /\
+  rx_from_cache (snd (fst (serveR (fst run) (snd run) r0))) = true /\
+  exists v, v_tuple v = vary_tuple (prime r0) (override r0) /\
+            snd (fst (serveR (fst run) (snd run) r0)) = finishX fix_svary negotiate vary_header (prime r0) (override r0) (v_resp v) ims_on true false.
+Proof.
+  intros hstate compute ims_on fix_clear fix_svary sfilter parse_ims sanitize_ok prime override negotiate vary_tuple
+         vary_header clear_alias own dflt r0 x now0 D.
+  exact (computed_once_designated_history_x hstate compute ims_on fix_clear fix_svary sfilter parse_ims sanitize_ok prime override
+           negotiate vary_tuple vary_header clear_alias own dflt r0 x now0 D).
+Qed.
+
+(** the fixture: the model component pipex.rund (compared with the real collection on every check) IS its specification run
+    (pipex.rund_spec: the two lookups replaced by the reading of the doc comments) on every input, and on the legacy
+    operations — by the host's own name, without filter — it is pipex.run, the model all theorems above are about *)
+Theorem designated_run_meets_spec : forall x, run_pipexd x = run_pipexd_spec x.
+Proof. exact run_pipexd_meets_spec. Qed.
+Theorem designated_own_name_is_plain : forall cache_on cx own dflt ops, is_default_name own = false ->
+  run_cfgd cache_on cx (fixture_collection own dflt) (map (embed own) ops) = run_cfgx cache_on cx ops.
+Proof. exact run_cfgd_embed. Qed.
+
 (** ---------------- the code before the repairs ---------------- *)
 (** handle_vary_missing pushed every computed variant: a variant whose handler declared NO server caching was stored
     (and served) — false for the repaired code by [stored_variants_admitted] *)
@@ -320,3 +478,33 @@ Example c04_ex_two_keys_cleared :
   bodies (run_cfgx true ex_two_keys_cx [XReq ex_rq; XReq ex_rf; XReq ex_rq; XClearPage ex_rq; XReq ex_rq; XReq ex_rf]) =
   [B "q=1"; B "form=2"; B "q=1"; []; B "q=3"; B "form=4"].
 Proof. vm_compute. reflexivity. Qed.
+
+(** designated clears: GET /c, GET /c (hit), clear, GET /c on the host "localhost" *)
+Definition exd_cx : configx :=
+  mkCfgX (w_cfg false [mkH (B "/c") 2 200 (B "n=") [] SP_FULL 0 false []] []) [] 0 None true true true true true true.
+Definition exd_r : request := mkReq M_GET (B "/c") None [] 1.
+Definition exd_run (dflt : bool) (o : opd) : list obsx :=
+  run_cfgd true exd_cx (fixture_collection (B "localhost") dflt) [DReq exd_r; DReq exd_r; o; DReq exd_r].
+(** "default" and "" reach the default host: found, cleared, recomputed *)
+Example c04_ex_clear_default : bodies (exd_run true (DClearPage (B "default") exd_r)) = [B "n=1"; B "n=1"; []; B "n=2"]
+  /\ nth 2 (exd_run true (DClearPage [] exd_r)) XbNone = XbCleared true true
+  /\ spec_designates (B "localhost") true (B "default") = true /\ spec_designates (B "localhost") true [] = true.
+Proof. vm_compute. repeat split; reflexivity. Qed.
+(** … but nothing when the host was inserted, not made the default; an unknown name reaches nothing either *)
+Example c04_ex_clear_not_default : bodies (exd_run false (DClearPage (B "default") exd_r)) = [B "n=1"; B "n=1"; []; B "n=1"]
+  /\ nth 2 (exd_run false (DClearPage (B "default") exd_r)) XbNone = XbCleared false false
+  /\ bodies (exd_run true (DClearPage (B "other.test") exd_r)) = [B "n=1"; B "n=1"; []; B "n=1"]
+  /\ spec_designates (B "localhost") false (B "default") = false /\ spec_designates (B "localhost") true (B "other.test") = false.
+Proof. vm_compute. repeat split; reflexivity. Qed.
+(** the filter: the host's name clears, another name does not *)
+Example c04_ex_clear_filter : bodies (exd_run false (DClearAll (Some (B "localhost")))) = [B "n=1"; B "n=1"; []; B "n=2"]
+  /\ bodies (exd_run false (DClearAll (Some (B "other.test")))) = [B "n=1"; B "n=1"; []; B "n=1"]
+  /\ bodies (exd_run false (DClearAll None)) = [B "n=1"; B "n=1"; []; B "n=2"]
+  /\ spec_filter_reaches (B "localhost") (Some (B "localhost")) = true /\ spec_filter_reaches (B "localhost") (Some (B "other.test")) = false.
+Proof. vm_compute. repeat split; reflexivity. Qed.
+(** [computed_once_designated_history]'s side condition is met by a clear of this very page that names another host *)
+Example c04_ex_benignD : forall x, benignD true (fun r => r) (fun _ => None) clear_alias_fix (B "localhost") false exd_r x
+                                    (DClearPage (B "default") exd_r) /\
+                                  benignD true (fun r => r) (fun _ => None) clear_alias_fix (B "localhost") false exd_r x
+                                    (DClearAll (Some (B "b.test"))).
+Proof. intros x. split; [left|]; vm_compute; reflexivity. Qed.
